@@ -7,9 +7,13 @@
 //verif:replace@C17d math/rand.NewSource = verifRandSource
 //verif:replace@C17d (*math/rand.Rand).Intn = verifIntn
 //verif:replace@C16d os.Stat = verifNoFile
+//verif:replace@C05g os.Stat = verifNoFile
 //verif:replace@C16d math/rand.New = verifRandNew
+//verif:replace@C05g math/rand.New = verifRandNew
 //verif:replace@C16d math/rand.NewSource = verifRandSource
+//verif:replace@C05g math/rand.NewSource = verifRandSource
 //verif:replace@C16d (*math/rand.Rand).Intn = verifIntn
+//verif:replace@C05g (*math/rand.Rand).Intn = verifIntn
 //verif:replace@C15e github.com/mimecast/dtail/internal/ssh.KeyFile = verifKeyFile
 //verif:replace@C15e github.com/mimecast/dtail/internal/ssh.Agent = verifAgent
 //verif:replace@C15e math/rand.New = verifRandNew
